@@ -124,18 +124,20 @@ func vClearCache(dir string) {
 	}
 }
 
-//verif:harness prop=C14 quick=3 thorough=3 merge=concrete timeout=1500
-//verif:bounds key completeness by self-composition: each of extract / delete / insert is run twice on the same concrete record (acgta with a forward and a complement gene) on a cold cache with two independently chosen option vectors (extract: -v and the locator list [gene] | [gene@^] | [gene, gene@^] | ["gene gene@^"]; delete: -e; insert: -e; these two with locator gene or gene@^); whenever the two runs use the same cache key (the entry name = digest of input digest and payload digest) their outputs must be equal
+//verif:harness prop=C14 quick=8 thorough=8 merge=concrete timeout=1500
+//verif:bounds key completeness by self-composition: each of extract / delete / insert / query (-H and the -n list: none | gene | gene,note | note,gene) / search (-e, --no-complement) / select (-v, -s forward) / sort (-r) / join (-c) is run twice on the same concrete record (acgta with a forward and a complement gene) on a cold cache with two independently chosen option vectors (extract: -v and the locator list [gene] | [gene@^] | [gene, gene@^] | ["gene gene@^"]; delete: -e; insert: -e; these two with locator gene or gene@^); whenever the two runs use the same cache key (the entry name = digest of input digest and payload digest) their outputs must be equal
 //verif:assume outputs are compared as emitted sequences (capturing writer); json.Marshal modelled by an injective structural encoding (the real encodePayload runs)
 func VH_C14_key_completeness() {
-	cmd := vShard(3)
+	cmd := vShard(8)
 	// a concrete record: the quantifier of this harness is the option vector
 	var ff gts.FeatureSlice
-	ff = ff.Insert(gts.Feature{Key: "gene", Loc: gts.Range(1, 3), Props: gts.Props{}})
-	ff = ff.Insert(gts.Feature{Key: "gene", Loc: gts.Range(2, 5).Complement(), Props: gts.Props{}})
+	ff = ff.Insert(gts.Feature{Key: "gene", Loc: gts.Range(1, 3), Props: gts.Props{[]string{"gene", "ga"}, []string{"note", "na"}}})
+	ff = ff.Insert(gts.Feature{Key: "gene", Loc: gts.Range(2, 5).Complement(), Props: gts.Props{[]string{"gene", "gb"}, []string{"note", "nb"}}})
 	gb, _ := vPlainRecord("kc", 0)
 	gb.Origin = seqio.NewOrigin([]byte("acgta"))
 	gb.Table = ff
+	gb2, _ := vPlainRecord("kd", 0)
+	gb2.Origin = seqio.NewOrigin([]byte("tt"))
 	cacheDir := "/cache/gts-cache"
 	if !vIsModel() {
 		home := vTempDir()
@@ -170,6 +172,44 @@ func VH_C14_key_completeness() {
 				args = append(args, "-e")
 			}
 			args = append(args, loc)
+		case 3:
+			// gts query: a table of qualifier values; the columns follow the order of the -n options
+			if opt {
+				args = append(args, "-H")
+			}
+			switch vChoice(tag+".names", 4) {
+			case 0:
+				args = append(args, "-n", "gene")
+			case 1:
+				args = append(args, "-n", "gene", "-n", "note")
+			case 2:
+				args = append(args, "-n", "note", "-n", "gene")
+			default:
+			}
+		case 4: // search: -e, --no-complement
+			if opt {
+				args = append(args, "-e")
+			}
+			if loc != "gene" {
+				args = append(args, "--no-complement")
+			}
+			args = append(args, "@cg")
+		case 5: // select: -v, -s forward
+			if opt {
+				args = append(args, "-v")
+			}
+			if loc != "gene" {
+				args = append(args, "-s", "forward")
+			}
+			args = append(args, "gene")
+		case 6: // sort: -r (two records)
+			if opt {
+				args = append(args, "-r")
+			}
+		case 7: // join: -c (two records)
+			if opt {
+				args = append(args, "-c")
+			}
 		default:
 			if opt {
 				args = append(args, "-e")
@@ -187,6 +227,19 @@ func VH_C14_key_completeness() {
 			out, err = vRunCmd("extract", extractFunc, args, []gts.Sequence{gb})
 		case 1:
 			out, err = vRunCmd("delete", deleteFunc, args, []gts.Sequence{gb})
+		case 4:
+			out, err = vRunCmd("search", searchFunc, args, []gts.Sequence{gb})
+		case 5:
+			out, err = vRunCmd("select", selectFunc, args, []gts.Sequence{gb})
+		case 6:
+			out, err = vRunCmd("sort", sortFunc, args, []gts.Sequence{gb, gb2})
+		case 7:
+			out, err = vRunCmd("join", joinFunc, args, []gts.Sequence{gb, gb2})
+		case 3:
+			// query prints a table, not sequences: compare the bytes written to stdout
+			var text []byte
+			text, err = vRunRaw("query", queryFunc, args, []gts.Sequence{gb})
+			out = []gts.Sequence{gts.New(nil, nil, text)}
 		default:
 			out, err = vRunCmd("insert", insertFunc, args, []gts.Sequence{gb})
 		}
